@@ -136,7 +136,8 @@ def main(argv):
   # with four times the budget: solver timeouts must not flip a verdict because the machine was loaded
   retry = [i for i, r in enumerate(results)
            if not r["error"] and not r["undecided_reason"]
-           and any(c["status"] == "unknown" for c in r["clauses"].values())
+           and 1 <= sum(1 for c in r["clauses"].values() if c["status"] == "unknown") <= 2
+           and not any("budget" in c["reason"] for c in r["clauses"].values())
            and not any(c["status"] == "failed" for c in r["clauses"].values())]
   for i in retry[:8]:
     base = cases[i].timeout_ms or (10000 if tier == "quick" else 60000)
